@@ -227,6 +227,8 @@ def e2e_run(job):
 
 
 def oracle_on_case(ctx: Ctx, case, verbose=False):
+    if case["kind"] == "stage-big":
+        return None         # regenerated by run(); the replay file names the size
     if case["kind"] == "stage":
         recs = live_sort_contexts()
         rec = recs[case["ctx"]]
@@ -281,6 +283,35 @@ def run(ctx: Ctx):
         lines.append(model_line(recs[ci], evs))
         wants.append(out)
         cases.append(case)
+    # a LARGE stream through the final sort alone (oracle only): nothing may leave a global sort before the input has
+    # ended, however many events are pending - slices arrive newest first (as the bandwidth stage re-emits them),
+    # metadata and counters with the smallest timestamps arrive last
+    recs = live_sort_contexts()
+    fin = [i for i, r0 in enumerate(recs) if r0["context"].global_sort and r0["context"].event_types is None]
+    for _big in range(ctx.n(1, 3)):
+        if not fin:
+            break
+        n = 33000 + 500 * _big
+        evs = [{"ph": "X", "name": "k", "pid": i % 3, "tid": i % 5, "ts": float(n - i), "dur": float(1 + i % 4), "args": {"uid": i}}
+               for i in range(n)]
+        evs += [{"ph": "M", "name": "process_name", "pid": 0, "ts": 0.0, "args": {"uid": n + j, "name": "p"}} for j in range(3)]
+        evs += [{"ph": "C", "name": "c", "pid": 1, "ts": float(5 + j), "args": {"uid": n + 10 + j, "v": 1}} for j in range(3)]
+        case = {"kind": "stage-big", "ctx": fin[-1], "n": n}
+        out = real_sort_export(recs[fin[-1]], evs)
+        prev = None
+        bad = None
+        for tok in out:
+            t = Fraction(tok.split(":")[1])
+            if prev is not None and t < prev:
+                bad = f"ts decreases from {float(prev)} to {float(t)} in the export of {len(evs)} events through the final sort"
+                break
+            prev = t
+        if bad is None and len(out) != len(evs):
+            bad = f"{len(evs)} events in, {len(out)} out of the final sort"
+        if bad:
+            ctx.violation("export-order", bad, case)
+        ctx.count("large_stream_cases")
+        ctx.case_done(case, key=("stage-big", n), nontrivial=True)
     # e2e
     jobs = []
     nsc = ctx.n(8, 100)
